@@ -719,6 +719,14 @@ Definition mass_phases (st : state) (s : stream) : list nat :=
   let v := match view_of st (imol s) with Some v => v | None => new_view (hp st) s end in
   match v_pb v with Some pb => [rdphase (hp st) pb] | None => v_phs v end.
 
+(* the final observation reads s.imass of every stream of the store IN ORDER; a read creates the view when the dict has
+   none, and a later stream holding the same dict then gets that view *)
+Fixpoint mass_all (st : state) (l : list stream) : list (list vec * list nat) :=
+  match l with
+  | [] => []
+  | s :: t => let st1 := fst (by_mass st s) in (mass_obs st1 s, mass_phases st1 s) :: mass_all st1 t
+  end.
+
 Definition step (st : state) (o : op) : state * option err :=
   match o with
   | ONewS i k p v T P pr c => creator st (new_single (hp st) i k p v T P pr c)
@@ -818,9 +826,9 @@ Definition run_eqb (ops : list op) (res : list (option err)) (final : list sobs)
   let (st, es) := run PK MWS init ops in
   let snap := snapshot st in
   list_eqb oerr_eqb es res && list_eqb sobs_eqb snap final
-  && list_eqb (list_eqb vapproxb) (map (mass_obs PK MWS st) (ss st)) mass
+  && list_eqb (list_eqb vapproxb) (map fst (mass_all PK MWS st (ss st))) mass
   && list_eqb (list_eqb vapproxb) (map o_rows snap) keyed
-  && list_eqb (list_eqb Nat.eqb) (map (mass_phases st) (ss st)) mphases
+  && list_eqb (list_eqb Nat.eqb) (map snd (mass_all PK MWS st (ss st))) mphases
   && vapproxb (map (enthalpy (hp st)) (ss st)) Hs && vapproxb (hlog PK MWS init ops) reads.
 Definition run_show (ops : list op) :=
-  let (st, es) := run PK MWS init ops in (es, snapshot st, map (mass_obs PK MWS st) (ss st), hp st, cmap st, caches st).
+  let (st, es) := run PK MWS init ops in (es, snapshot st, mass_all PK MWS st (ss st), hp st, cmap st, caches st).
